@@ -210,11 +210,11 @@ def perfect_cases():
 
 
 def _perfect_chunk(params, lo, hi):
-    off = params or 0
+    off, stride = params  # block = the cases off, off+stride, off+2*stride, ... (every residue class holds pairs of all shapes)
     cases = perfect_cases()
     r = new_result()
-    for idx in range(lo + off, hi + off):
-        a, b = cases[idx]
+    for k in range(lo, hi):
+        a, b = cases[off + k * stride]
         sizes = list(a) + list(b)
         run_instance(r, sizes, 16, [1] * len(sizes), ("solve_bp",), base={"max_iter": 60, "max_nodes": 20})
         if len(r["violations"]) >= 40 or r["counters"]["hangs"] >= 2 or too_many_hangs():
@@ -388,11 +388,10 @@ def jobs(tier, seed):
     js.append(Job("width_sweeps_in_one_process", len(sweep_cases()), _sweep_chunk, None, chunk=1, describe="one order (two piece sizes in 1..7) solved for every roll width up to 12 and back, consecutively in one process; each answer judged on its own"))
     npf = len(perfect_cases())
     if tier == "thorough":
-        js.append(Job("bp_two_perfect_rolls_W16", npf, _perfect_chunk, 0, chunk=1, describe="solve_bp (max_iter 60, max_nodes 20) on the pieces of two rolls of width 16 cut into 3-4 pieces each, unit demands: optimum 2 by construction, degenerate masters"))
+        js.append(Job("bp_two_perfect_rolls_W16", npf, _perfect_chunk, (0, 1), chunk=1, describe="solve_bp (max_iter 60, max_nodes 20) on the pieces of two rolls of width 16 cut into 3-4 pieces each, unit demands: optimum 2 by construction, degenerate masters"))
     else:
-        b = seed % 8
-        lo, hi = npf * b // 8, npf * (b + 1) // 8
-        js.append(Job(f"bp_two_perfect_rolls_W16_block{b}of8", hi - lo, _perfect_chunk, lo, chunk=1, describe="rotating 1/8 block (VERIF_SEED) of: solve_bp on the pieces of two rolls of width 16 cut into 3-4 pieces each, unit demands"))
+        b = seed % 4
+        js.append(Job(f"bp_two_perfect_rolls_W16_class{b}mod4", len(range(b, npf, 4)), _perfect_chunk, (b, 4), chunk=1, describe="every fourth case, starting at VERIF_SEED mod 4, of: solve_bp on the pieces of two rolls of width 16 cut into 3-4 pieces each, unit demands"))
     cl = _custom_list(tier)
     js.append(Job("custom_columns", len(cl), _custom_chunk, cl, describe="custom mode: covering subsets of the maximal patterns as initial columns, exact enumerating pricing_fn; solve_cg and solve_bp"))
     return js
